@@ -25,8 +25,8 @@ pub fn show_colors() -> std::io::Result<()> {
     let config = config::Config::from(opt);
     let pagercfg = (&config).into();
 
-    let mut output_type =
-        OutputType::from_mode(&env, PagingMode::QuitIfOneScreen, None, &pagercfg).unwrap();
+    let mut output_type = OutputType::from_mode(&env, PagingMode::QuitIfOneScreen, None, &pagercfg)
+        .unwrap_or_else(|_| OutputType::stdout());
     let writer = output_type.handle().unwrap();
 
     let mut painter = paint::Painter::new(writer, &config);
